@@ -85,8 +85,10 @@ func (ue *ChfUe) init() {
 		Handler:            ue.RatingMux,
 		MaxRetransmits:     3,
 		RetransmitInterval: time.Second,
-		EnableWatchdog:     true,
-		WatchdogInterval:   5 * time.Second,
+		// every request dials its own short-lived connection (closed after at most 5 s): a device
+		// watchdog never gets to run on it, and its task outlives a connection closed before the first read
+		EnableWatchdog:   false,
+		WatchdogInterval: 5 * time.Second,
 		AuthApplicationID: []*diam.AVP{
 			// Advertise support for credit control application
 			diam.NewAVP(avp.AuthApplicationID, avp.Mbit, 0, datatype.Unsigned32(4)), // RFC 4006
@@ -99,8 +101,10 @@ func (ue *ChfUe) init() {
 		Handler:            ue.AbmfMux,
 		MaxRetransmits:     3,
 		RetransmitInterval: time.Second,
-		EnableWatchdog:     true,
-		WatchdogInterval:   5 * time.Second,
+		// every request dials its own short-lived connection (closed after at most 5 s): a device
+		// watchdog never gets to run on it, and its task outlives a connection closed before the first read
+		EnableWatchdog:   false,
+		WatchdogInterval: 5 * time.Second,
 		AuthApplicationID: []*diam.AVP{
 			// Advertise support for credit control application
 			diam.NewAVP(avp.AuthApplicationID, avp.Mbit, 0, datatype.Unsigned32(4)), // RFC 4006
